@@ -49,7 +49,7 @@ struct VecDriver {
     }
 
     // ---------------------------------------------------------------- creation / destruction
-    auto raw(int s) -> void* { return arena_prepare(s, sizeof(Vec), plan.cfg, static_cast<uint64_t>(ctx.step + 1)); }
+    auto raw(int s) -> void* { return arena_prepare(s, sizeof(Vec), plan.cfg, static_cast<uint64_t>(ctx.step + 1), alignof(Vec)); }
 
     void create_default(int s)
     {
@@ -82,7 +82,7 @@ struct VecDriver {
     void probe_default_init()
     {
 #if !defined(SIM_VALGRIND)
-        unsigned char* mem = static_cast<unsigned char*>(arena_prepare(kTemp, sizeof(Vec), plan.cfg, 9001));
+        unsigned char* mem = static_cast<unsigned char*>(arena_prepare(kTemp, sizeof(Vec), plan.cfg, 9001, alignof(Vec)));
         unsigned char before[sizeof(Vec)];
         std::memcpy(before, mem, sizeof(Vec));
         size_t n = 0;
@@ -217,6 +217,12 @@ struct VecDriver {
             std::vector<double> d;
             for (int c : m) {
                 d.push_back(decode_float(c));
+            }
+            return d;
+        } else if constexpr (std::is_same_v<T, Coarse>) {
+            std::vector<Coarse> d;
+            for (int c : m) {
+                d.push_back(Coarse(c));
             }
             return d;
         } else {
@@ -1689,7 +1695,7 @@ struct StackDriver : DriverBase<StackDriver<T, N>> {
     {
     }
 
-    auto raw(int s) -> void* { return arena_prepare(s, sizeof(S), plan.cfg, static_cast<uint64_t>(ctx.step + 1)); }
+    auto raw(int s) -> void* { return arena_prepare(s, sizeof(S), plan.cfg, static_cast<uint64_t>(ctx.step + 1), alignof(S)); }
 
     void destroy(int s)
     {
@@ -1718,7 +1724,7 @@ struct StackDriver : DriverBase<StackDriver<T, N>> {
             return;
         }
         model[s].clear();
-        void* mem = arena_prepare(kTemp, sizeof(S), plan.cfg, 4242);
+        void* mem = arena_prepare(kTemp, sizeof(S), plan.cfg, 4242, alignof(S));
         guarded(false, [&] {
             S* tmp = new (mem) S(static_cast<S const&>(*obj[s]));
             while (!tmp->empty()) {
@@ -1738,7 +1744,7 @@ struct StackDriver : DriverBase<StackDriver<T, N>> {
             ctx.violation(prop, std::string(prefix) + ":" + what, std::string(what) + " got " + std::to_string(got) + " want " + std::to_string(want) + " (slot " + std::to_string(s) + ")");
         };
         std::vector<int> const& m = model[s];
-        void* mem                 = arena_prepare(kTemp, sizeof(S), plan.cfg, 4243);
+        void* mem                 = arena_prepare(kTemp, sizeof(S), plan.cfg, 4243, alignof(S));
         bool ok                   = observe("stack", [&] {
             S const& cs = *obj[s];
             if (cs.size() > N) {
@@ -2147,6 +2153,10 @@ void register_vec_0()
     add_static<double, 9>("double");
     add_inplace<double, 4>("double");
     add_stack<double, 3>("double");
+    // operator< coarser than operator==: ties of the lexicographic comparison are decided by < alone
+    add_static<sim::Coarse, 4>("Coarse");
+    add_inplace<sim::Coarse, 4>("Coarse");
+    add_stack<sim::Coarse, 3>("Coarse");
 }
 
 auto main(int argc, char** argv) -> int
